@@ -416,4 +416,49 @@ def Move.is_attack (bits : UInt64) : Option Bool := do
 def Move.is_promotion (bits : UInt64) : Option Bool := do
   pure (decide ((← Move.get_promotion_piece bits) ≠ NO_PIECE))
 
+/-- `const NO_SQUARE: u32 = 0` (board/src/board/constants.rs:104) -/
+def NO_SQUARE : Int := 0
+
+/-- `const A8: u32 = 0` (board/src/board/constants.rs:105) -/
+def A8 : Int := 0
+
+/-- `const C8: u32 = 2` (board/src/board/constants.rs:107) -/
+def C8 : Int := 2
+
+/-- `const D8: u32 = 3` (board/src/board/constants.rs:108) -/
+def D8 : Int := 3
+
+/-- `const E8: u32 = 4` (board/src/board/constants.rs:109) -/
+def E8 : Int := 4
+
+/-- `const F8: u32 = 5` (board/src/board/constants.rs:110) -/
+def F8 : Int := 5
+
+/-- `const G8: u32 = 6` (board/src/board/constants.rs:111) -/
+def G8 : Int := 6
+
+/-- `const H8: u32 = 7` (board/src/board/constants.rs:112) -/
+def H8 : Int := 7
+
+/-- `const A1: u32 = 56` (board/src/board/constants.rs:161) -/
+def A1 : Int := 56
+
+/-- `const C1: u32 = 58` (board/src/board/constants.rs:163) -/
+def C1 : Int := 58
+
+/-- `const D1: u32 = 59` (board/src/board/constants.rs:164) -/
+def D1 : Int := 59
+
+/-- `const E1: u32 = 60` (board/src/board/constants.rs:165) -/
+def E1 : Int := 60
+
+/-- `const F1: u32 = 61` (board/src/board/constants.rs:166) -/
+def F1 : Int := 61
+
+/-- `const G1: u32 = 62` (board/src/board/constants.rs:167) -/
+def G1 : Int := 62
+
+/-- `const H1: u32 = 63` (board/src/board/constants.rs:168) -/
+def H1 : Int := 63
+
 end Inkayaku.Rs
